@@ -166,6 +166,37 @@ inline void variant_ops() {
   vt_check(g_bad == 0, "no element used, assigned or destroyed while not alive");
 }
 
+// assignment from a Variant over a DIFFERENT list of element types (each convertible to an element of the target)
+using V2 = nop::Variant<T1, int>;
+inline void variant_cross_ops() {
+  ghost_reset();
+  {
+    V a;
+    int ka, va;
+    make_variant(&a, &ka, &va);
+    V2 o;
+    const std::uint8_t ko = nondet<std::uint8_t>() % 3;  // 0: empty, 1: T1, 2: int
+    const int vo = nondet<int>();
+    if (ko == 1) o = T1(vo);
+    else if (ko == 2) o = vo;
+    vt_check(g_live == live_of(ka) + (ko == 1 ? 1 : 0), "operand states of the cross-type assignment");
+    const bool move = nondet<bool>();
+    g_watch_obj = &a;
+    g_watch_size = sizeof a;
+    g_watch_index = &a.index_;
+    if (move) a = std::move(o);
+    else a = o;
+    g_watch_obj = nullptr;
+    vt_check(g_ctor_while_indexed == 0, "an element constructor only ever runs while the Variant reports empty (a throwing constructor leaves it empty)");
+    const int k = ko == 0 ? -1 : (ko == 1 ? 1 : 2);
+    check_variant(a, k, vo);
+    vt_check(g_live == live_of(k) + (ko == 1 ? 1 : 0), "after a cross-type assignment: exactly one live element per Variant holding a tracked alternative");
+    vt_cover(ko == 1 && ka == 0, "cross-type assignment over another tracked alternative reached");
+    vt_cover(ko == 0 && ka == 1 && move, "cross-type move of an empty Variant over a full one reached");
+  }
+  vt_check(g_live == 0 && g_ctor == g_dtor && g_bad == 0, "every element was destroyed exactly once");
+}
+
 // single-alternative Variant: the terminal case of the recursive storage handles every index itself
 using U = nop::Variant<T0>;
 inline void variant_single_ops() {
@@ -205,6 +236,7 @@ inline void variant_single_ops() {
 
 }  // namespace vt
 
+VT_HARNESS(h_variant_cross) { vt::variant_cross_ops(); }
 VT_HARNESS(h_variant_single) { vt::variant_single_ops(); }
 VT_HARNESS(h_variant_ops) { vt::variant_ops(); }
 VT_HARNESS(h_variant_convert) { vt::variant_convert_ops(); }
